@@ -13,7 +13,8 @@
 (*   dslack : distributed_slack           wts  : slack weight pattern (1..3)                                          *)
 (*   scal   : "one" | "half" scaling of ld0 / sg0 / g2   shvn : "bus" | "other" rated voltage of the shunt             *)
 (*   sn     : net.sn_mva 1 | 10      ls2g : TRUE = default back-end choice (lightsim2grid where possible), FALSE = pandapower's *)
-(*            own Newton-Raphson      shpq : "std" | "equal" (shunt with p_mw = q_mvar, i.e. G = -B)                       *)
+(*            own Newton-Raphson      shpq : "std" | "equal" (shunt with p_mw = q_mvar, i.e. G = -B) | "table" (step-dependent   *)
+(*            shunt_characteristic_table, operated at step 2)       alg : "nr" | "fdbx" (a PYPOWER algorithm)              *)
 (* Powers are micro-MW / micro-Mvar integers, voltages micro-pu, NaN is Fix!NaN.                                       *)
 EXTENDS Integers, Sequences, FiniteSets, TLC
 
